@@ -10,6 +10,10 @@
 #include <vector>
 #include <limits>
 
+#ifndef HX_SC
+#define HX_SC double
+#endif
+
 namespace hx {
 
 // request-scoped state: guard-zone violations around view buffers, and (on request, mask bit 128)
@@ -24,7 +28,7 @@ inline Scope& scope() { static thread_local Scope s; return s; }
 constexpr double kGuard = 1234.5;
 
 template <class M> void pushM(std::vector<double>& out, const M& m) {
-  for (int i = 0; i < m.rows(); ++i) for (int j = 0; j < m.cols(); ++j) out.push_back(m(i, j));
+  for (int i = 0; i < m.rows(); ++i) for (int j = 0; j < m.cols(); ++j) out.push_back((double)m(i, j));
 }
 
 // Operand factories. Elements are built by writing coefficients directly (no constructor
@@ -32,36 +36,36 @@ template <class M> void pushM(std::vector<double>& out, const M& m) {
 template <class G, char S> struct Operand;
 template <class G> struct Operand<G, 'o'> {
   G g;
-  explicit Operand(const double* p) { for (int i = 0; i < G::RepSize; ++i) g.coeffs()(i) = p[i]; }
-  ~Operand() { if (scope().echo) for (int i = 0; i < G::RepSize; ++i) scope().echoed.push_back(g.coeffs()(i)); }
+  explicit Operand(const double* p) { for (int i = 0; i < G::RepSize; ++i) g.coeffs()(i) = (HX_SC)p[i]; }
+  ~Operand() { if (scope().echo) for (int i = 0; i < G::RepSize; ++i) scope().echoed.push_back((double)g.coeffs()(i)); }
   const G& get() const { return g; }
   G& mut() { return g; }
 };
 template <class G> struct Operand<G, 'm'> {
   // view over a caller buffer placed at an odd (unaligned) offset inside a guarded array
-  double buf[G::RepSize + 9];
+  typename G::Scalar buf[G::RepSize + 9];
   Eigen::Map<G> v;
   explicit Operand(const double* p) : v(buf + 3) {
-    for (auto& x : buf) x = kGuard;
-    for (int i = 0; i < G::RepSize; ++i) buf[3 + i] = p[i];
+    for (auto& x : buf) x = (HX_SC)kGuard;
+    for (int i = 0; i < G::RepSize; ++i) buf[3 + i] = (HX_SC)p[i];
   }
   ~Operand() {
-    for (int i = 0; i < G::RepSize + 9; ++i) if ((i < 3 || i >= 3 + G::RepSize) && buf[i] != kGuard) scope().guard_broken = true;
-    if (scope().echo) for (int i = 0; i < G::RepSize; ++i) scope().echoed.push_back(buf[3 + i]);
+    for (int i = 0; i < G::RepSize + 9; ++i) if ((i < 3 || i >= 3 + G::RepSize) && buf[i] != (HX_SC)kGuard) scope().guard_broken = true;
+    if (scope().echo) for (int i = 0; i < G::RepSize; ++i) scope().echoed.push_back((double)buf[3 + i]);
   }
   const Eigen::Map<G>& get() const { return v; }
   Eigen::Map<G>& mut() { return v; }
 };
 template <class G> struct Operand<G, 'c'> {
-  double buf[G::RepSize + 9];
+  typename G::Scalar buf[G::RepSize + 9];
   Eigen::Map<const G> v;
   explicit Operand(const double* p) : v(buf + 3) {
-    for (auto& x : buf) x = kGuard;
-    for (int i = 0; i < G::RepSize; ++i) buf[3 + i] = p[i];
+    for (auto& x : buf) x = (HX_SC)kGuard;
+    for (int i = 0; i < G::RepSize; ++i) buf[3 + i] = (HX_SC)p[i];
   }
   ~Operand() {
-    for (int i = 0; i < G::RepSize + 9; ++i) if ((i < 3 || i >= 3 + G::RepSize) && buf[i] != kGuard) scope().guard_broken = true;
-    if (scope().echo) for (int i = 0; i < G::RepSize; ++i) scope().echoed.push_back(buf[3 + i]);
+    for (int i = 0; i < G::RepSize + 9; ++i) if ((i < 3 || i >= 3 + G::RepSize) && buf[i] != (HX_SC)kGuard) scope().guard_broken = true;
+    if (scope().echo) for (int i = 0; i < G::RepSize; ++i) scope().echoed.push_back((double)buf[3 + i]);
   }
   const Eigen::Map<const G>& get() const { return v; }
 };
@@ -69,33 +73,33 @@ template <class G> struct Operand<G, 'c'> {
 template <class T, char S> struct TOperand;
 template <class T> struct TOperand<T, 'o'> {
   T t;
-  explicit TOperand(const double* p) { for (int i = 0; i < T::DoF; ++i) t.coeffs()(i) = p[i]; }
-  ~TOperand() { if (scope().echo) for (int i = 0; i < T::DoF; ++i) scope().echoed.push_back(t.coeffs()(i)); }
+  explicit TOperand(const double* p) { for (int i = 0; i < T::DoF; ++i) t.coeffs()(i) = (HX_SC)p[i]; }
+  ~TOperand() { if (scope().echo) for (int i = 0; i < T::DoF; ++i) scope().echoed.push_back((double)t.coeffs()(i)); }
   const T& get() const { return t; }
 };
 template <class T> struct TOperand<T, 'm'> {
-  double buf[T::DoF + 9];
+  typename T::Scalar buf[T::DoF + 9];
   Eigen::Map<T> v;
   explicit TOperand(const double* p) : v(buf + 3) {
-    for (auto& x : buf) x = kGuard;
-    for (int i = 0; i < T::DoF; ++i) buf[3 + i] = p[i];
+    for (auto& x : buf) x = (HX_SC)kGuard;
+    for (int i = 0; i < T::DoF; ++i) buf[3 + i] = (HX_SC)p[i];
   }
   ~TOperand() {
-    for (int i = 0; i < T::DoF + 9; ++i) if ((i < 3 || i >= 3 + T::DoF) && buf[i] != kGuard) scope().guard_broken = true;
-    if (scope().echo) for (int i = 0; i < T::DoF; ++i) scope().echoed.push_back(buf[3 + i]);
+    for (int i = 0; i < T::DoF + 9; ++i) if ((i < 3 || i >= 3 + T::DoF) && buf[i] != (HX_SC)kGuard) scope().guard_broken = true;
+    if (scope().echo) for (int i = 0; i < T::DoF; ++i) scope().echoed.push_back((double)buf[3 + i]);
   }
   const Eigen::Map<T>& get() const { return v; }
 };
 template <class T> struct TOperand<T, 'c'> {
-  double buf[T::DoF + 9];
+  typename T::Scalar buf[T::DoF + 9];
   Eigen::Map<const T> v;
   explicit TOperand(const double* p) : v(buf + 3) {
-    for (auto& x : buf) x = kGuard;
-    for (int i = 0; i < T::DoF; ++i) buf[3 + i] = p[i];
+    for (auto& x : buf) x = (HX_SC)kGuard;
+    for (int i = 0; i < T::DoF; ++i) buf[3 + i] = (HX_SC)p[i];
   }
   ~TOperand() {
-    for (int i = 0; i < T::DoF + 9; ++i) if ((i < 3 || i >= 3 + T::DoF) && buf[i] != kGuard) scope().guard_broken = true;
-    if (scope().echo) for (int i = 0; i < T::DoF; ++i) scope().echoed.push_back(buf[3 + i]);
+    for (int i = 0; i < T::DoF + 9; ++i) if ((i < 3 || i >= 3 + T::DoF) && buf[i] != (HX_SC)kGuard) scope().guard_broken = true;
+    if (scope().echo) for (int i = 0; i < T::DoF; ++i) scope().echoed.push_back((double)buf[3 + i]);
   }
   const Eigen::Map<const T>& get() const { return v; }
 };
@@ -158,10 +162,10 @@ bool runAlias(const Req& r, Resp& R) {
   if (op == "f_act" && need(Rep + Dim)) {
     Operand<G, S> x(a.data());
     typename G::Vector v;
-    for (int i = 0; i < Dim; ++i) v(i) = a[Rep + i];
-    Eigen::Matrix<double, Dim, DoF> jm; Eigen::Matrix<double, Dim, Dim> jv;
-    tl::optional<Eigen::Ref<Eigen::Matrix<double, Dim, DoF>>> om;
-    tl::optional<Eigen::Ref<Eigen::Matrix<double, Dim, Dim>>> ov;
+    for (int i = 0; i < Dim; ++i) v(i) = (HX_SC)a[Rep + i];
+    Eigen::Matrix<HX_SC, Dim, DoF> jm; Eigen::Matrix<HX_SC, Dim, Dim> jv;
+    tl::optional<Eigen::Ref<Eigen::Matrix<HX_SC, Dim, DoF>>> om;
+    tl::optional<Eigen::Ref<Eigen::Matrix<HX_SC, Dim, Dim>>> ov;
     if (w0) om = jm;
     if (w1) ov = jv;
     typename G::Vector res = manif::act(x.get(), v, om, ov);
@@ -204,16 +208,16 @@ bool runAlgo(const Req& r, Resp& R) {
   auto elem = [&](size_t off) { Operand<G, 'o'> x(a.data() + off); return x.g; };
   auto tang = [&](size_t off) { TOperand<T, 'o'> t(a.data() + off); return t.t; };
   if (op == "interp_slerp" && a.size() == (size_t)(2 * Rep + 1)) {
-    G g = manif::interpolate(elem(0), elem(Rep), a[2 * Rep], manif::INTERP_METHOD::SLERP);
+    G g = manif::interpolate(elem(0), elem(Rep), (HX_SC)a[2 * Rep], manif::INTERP_METHOD::SLERP);
     pushM(out, g.coeffs()); return true;
   }
   if (op == "interp_cubic" && a.size() == (size_t)(2 * Rep + 1 + 2 * DoF)) {
-    G g = manif::interpolate(elem(0), elem(Rep), a[2 * Rep], manif::INTERP_METHOD::CUBIC,
+    G g = manif::interpolate(elem(0), elem(Rep), (HX_SC)a[2 * Rep], manif::INTERP_METHOD::CUBIC,
                              tang(2 * Rep + 1), tang(2 * Rep + 1 + DoF));
     pushM(out, g.coeffs()); return true;
   }
   if (op == "interp_smooth" && a.size() == (size_t)(2 * Rep + 1 + 2 * DoF) && r.ints.size() == 1) {
-    G g = manif::interpolate_smooth(elem(0), elem(Rep), a[2 * Rep], (unsigned int)r.ints[0],
+    G g = manif::interpolate_smooth(elem(0), elem(Rep), (HX_SC)a[2 * Rep], (unsigned int)r.ints[0],
                                     tang(2 * Rep + 1), tang(2 * Rep + 1 + DoF));
     pushM(out, g.coeffs()); return true;
   }
@@ -221,7 +225,7 @@ bool runAlgo(const Req& r, Resp& R) {
       a.size() >= 1 && (a.size() - 1) % Rep == 0) {
     std::vector<G> pts;
     for (size_t i = 1; i + Rep <= a.size(); i += Rep) pts.push_back(elem(i));
-    const double eps = a[0]; const int mi = (int)r.ints[0];
+    const HX_SC eps = (HX_SC)a[0]; const int mi = (int)r.ints[0];
     G g = (op == "avg_bi") ? manif::average_biinvariant(pts, eps, mi)
         : (op == "avg_w")  ? manif::average(pts, eps, mi)
         : (op == "avg_fl") ? manif::average_frechet_left(pts, eps, mi)
@@ -230,16 +234,16 @@ bool runAlgo(const Req& r, Resp& R) {
   }
   if (op == "t_isApprox" && (a.size() == (size_t)(2 * DoF + 1) || a.size() == (size_t)(2 * DoF))) {
     T ta = tang(0), tb = tang(DoF);
-    const bool res = (a.size() == (size_t)(2 * DoF + 1)) ? ta.isApprox(tb, a[2 * DoF]) : (ta == tb);
+    const bool res = (a.size() == (size_t)(2 * DoF + 1)) ? ta.isApprox(tb, (HX_SC)a[2 * DoF]) : (ta == tb);
     out.push_back(res ? 1.0 : 0.0); return true;
   }
   if (op == "isApprox" && (a.size() == (size_t)(2 * Rep + 1) || a.size() == (size_t)(2 * Rep))) {
     G x = elem(0), y = elem(Rep);
-    const bool res = (a.size() == (size_t)(2 * Rep + 1)) ? x.isApprox(y, a[2 * Rep]) : (x == y);
+    const bool res = (a.size() == (size_t)(2 * Rep + 1)) ? x.isApprox(y, (HX_SC)a[2 * Rep]) : (x == y);
     out.push_back(res ? 1.0 : 0.0); return true;
   }
   if (op == "phi" && a.size() == 1 && r.ints.size() == 1) {
-    out.push_back(manif::smoothing_phi(a[0], (std::size_t)r.ints[0])); return true;
+    out.push_back((double)manif::smoothing_phi((HX_SC)a[0], (std::size_t)r.ints[0])); return true;
   }
   if (op == "decasteljau" && r.ints.size() == 3 && a.size() % Rep == 0) {
     std::vector<G> traj;
@@ -273,8 +277,8 @@ typename std::enable_if<S != 'c', bool>::type runPurity(const Req& r, Resp& R) {
   if (op.compare(0, 4, "blk_") != 0) return false;
   const std::string base = op.substr(4);
   const bool w0 = r.mask & 1, w1 = r.mask & 2;
-  const double nan = std::numeric_limits<double>::quiet_NaN();
-  Eigen::Matrix<double, DoF + 3, DoF + 4> A, B;
+  const HX_SC nan = std::numeric_limits<HX_SC>::quiet_NaN();
+  Eigen::Matrix<HX_SC, DoF + 3, DoF + 4> A, B;
   A.setConstant(nan); B.setConstant(nan);
   typename G::OptJacobianRef oa, ob;
   if (w0) oa = A.template block<DoF, DoF>(1, 2);
@@ -300,15 +304,15 @@ typename std::enable_if<S != 'c', bool>::type runPurity(const Req& r, Resp& R) {
   if (base == "exp" && a.size() == (size_t)DoF) { TOperand<T, S> t(a.data()); G g = t.get().exp(oa); pushM(out, g.coeffs()); if (w0) pushM(out, A); return true; }
   if (base == "act" && a.size() == (size_t)(Rep + Dim)) {
     Operand<G, S> x(a.data());
-    Eigen::Matrix<double, Dim, 1> v;
-    for (int i = 0; i < Dim; ++i) v(i) = a[Rep + i];
-    Eigen::Matrix<double, Dim + 3, DoF + 4> Am; Eigen::Matrix<double, Dim + 3, Dim + 4> Bm;
+    Eigen::Matrix<HX_SC, Dim, 1> v;
+    for (int i = 0; i < Dim; ++i) v(i) = (HX_SC)a[Rep + i];
+    Eigen::Matrix<HX_SC, Dim + 3, DoF + 4> Am; Eigen::Matrix<HX_SC, Dim + 3, Dim + 4> Bm;
     Am.setConstant(nan); Bm.setConstant(nan);
-    tl::optional<Eigen::Ref<Eigen::Matrix<double, Dim, DoF>>> om;
-    tl::optional<Eigen::Ref<Eigen::Matrix<double, Dim, Dim>>> ov;
+    tl::optional<Eigen::Ref<Eigen::Matrix<HX_SC, Dim, DoF>>> om;
+    tl::optional<Eigen::Ref<Eigen::Matrix<HX_SC, Dim, Dim>>> ov;
     if (w0) om = Am.template block<Dim, DoF>(1, 2);
     if (w1) ov = Bm.template block<Dim, Dim>(2, 1);
-    Eigen::Matrix<double, Dim, 1> res = x.get().act(v, om, ov);
+    Eigen::Matrix<HX_SC, Dim, 1> res = x.get().act(v, om, ov);
     pushM(out, res); if (w0) pushM(out, Am); if (w1) pushM(out, Bm); return true;
   }
   return false;
@@ -364,13 +368,13 @@ void runS(const Req& r, Resp& R) {
     pushM(out, t.coeffs()); if (w0) pushM(out, ja); if (w1) pushM(out, jb);
   } else if (op == "act" && need(Rep + Dim)) {
     Operand<G, S> x(a.data());
-    Eigen::Matrix<double, Dim, 1> v;
-    for (int i = 0; i < Dim; ++i) v(i) = a[Rep + i];
-    Eigen::Matrix<double, Dim, DoF> jm; Eigen::Matrix<double, Dim, Dim> jv;
-    tl::optional<Eigen::Ref<Eigen::Matrix<double, Dim, DoF>>> om;
-    tl::optional<Eigen::Ref<Eigen::Matrix<double, Dim, Dim>>> ov;
+    Eigen::Matrix<HX_SC, Dim, 1> v;
+    for (int i = 0; i < Dim; ++i) v(i) = (HX_SC)a[Rep + i];
+    Eigen::Matrix<HX_SC, Dim, DoF> jm; Eigen::Matrix<HX_SC, Dim, Dim> jv;
+    tl::optional<Eigen::Ref<Eigen::Matrix<HX_SC, Dim, DoF>>> om;
+    tl::optional<Eigen::Ref<Eigen::Matrix<HX_SC, Dim, Dim>>> ov;
     if (w0) om = jm; if (w1) ov = jv;
-    Eigen::Matrix<double, Dim, 1> res = x.get().act(v, om, ov);
+    Eigen::Matrix<HX_SC, Dim, 1> res = x.get().act(v, om, ov);
     pushM(out, res); if (w0) pushM(out, jm); if (w1) pushM(out, jv);
   } else if (op == "adj" && need(Rep)) {
     Operand<G, S> x(a.data()); pushM(out, x.get().adj());
@@ -400,14 +404,14 @@ void runS(const Req& r, Resp& R) {
     pushM(out, res.coeffs());
   } else if (op == "inner" && need(2 * DoF)) {
     TOperand<T, S> ta(a.data()), tb(a.data() + DoF);
-    out.push_back(ta.get().inner(tb.get()));
+    out.push_back((double)ta.get().inner(tb.get()));
   } else if (op == "sqwnorm" && need(DoF)) {
-    TOperand<T, S> ta(a.data()); out.push_back(ta.get().squaredWeightedNorm());
+    TOperand<T, S> ta(a.data()); out.push_back((double)ta.get().squaredWeightedNorm());
   } else if (op == "wnorm" && need(DoF)) {
-    TOperand<T, S> ta(a.data()); out.push_back(ta.get().weightedNorm());
+    TOperand<T, S> ta(a.data()); out.push_back((double)ta.get().weightedNorm());
   } else if (op == "vee" && need((size_t)(T::LieAlg::RowsAtCompileTime * T::LieAlg::ColsAtCompileTime))) {
     typename T::LieAlg A;
-    for (int i = 0; i < A.rows(); ++i) for (int j = 0; j < A.cols(); ++j) A(i, j) = a[i * A.cols() + j];
+    for (int i = 0; i < A.rows(); ++i) for (int j = 0; j < A.cols(); ++j) A(i, j) = (HX_SC)a[i * A.cols() + j];
     T res = T::Vee(A);
     pushM(out, res.coeffs());
   } else if (op == "generator" && need(0) && r.ints.size() == 1) {
@@ -416,8 +420,8 @@ void runS(const Req& r, Resp& R) {
     pushM(out, T::InnerWeights());
   } else if (op == "make" && need(Rep)) {
     // constructor from raw coefficients: runs the unit-norm assertion when enabled
-    Eigen::Matrix<double, Rep, 1> d;
-    for (int i = 0; i < Rep; ++i) d(i) = a[i];
+    Eigen::Matrix<HX_SC, Rep, 1> d;
+    for (int i = 0; i < Rep; ++i) d(i) = (HX_SC)a[i];
     G g(d);
     pushM(out, g.coeffs());
   } else {
